@@ -43,6 +43,10 @@ type FlowOpts struct {
 	Generations  int  // incarnations (1: no restart)
 	FaultFreeAfterStop bool
 	StopW        int // weight of the environment action "stop the process"
+	Closers      int    // Close/Disconnect invocations
+	CloserMix    [4]int // Close, Disconnect(nil), Disconnect(open quit), Disconnect(closed quit)
+	CloserW      int    // weight of starting the first closer
+	CloserAtStep int    // sweep: the first closer starts at this step
 	ReqMix       [rkKinds]int
 	QuitMix      [4]int
 	FailFilter   int // permille of subscribe filters the broker fails
@@ -125,6 +129,12 @@ type Flow struct {
 	LastRSReturn int
 	InSent       int // application messages the broker has been given so far
 	Owned        map[uint16]int // inbound exactly-once identifiers whose marker is stored -> step of the Save
+	Closers    []*Closer
+	ClosedAt   int // step at which the first Close/Disconnect returned
+	ClosedTime time.Duration
+	ProbeDone  bool
+	LeakedLib  int
+	LeakSample string
 	Stops      []*StopInfo
 	Carry      map[[2]int]bool // (incarnation, level): transfers of that level were pending at its adoption
 	Gen1Ops    int // storage operations of the first incarnation after InitSession
@@ -647,6 +657,7 @@ func (f *Flow) env() []Action {
 		}})
 	}
 	acts = append(acts, f.quitActions()...)
+	acts = append(acts, f.closerActions()...)
 	if f.O.StopW > 0 && w.Gen < f.O.Generations && f.C != nil && w.StopParam < 0 {
 		acts = append(acts, Action{Name: "stop", Weight: f.O.StopW, Run: func() {
 			w.Faults["stop_anywhere"]++
@@ -766,6 +777,21 @@ func (f *Flow) goalReached() bool {
 func (f *Flow) done() bool {
 	if f.FatalSetup != nil {
 		return true
+	}
+	if f.O.Closers > 0 {
+		if f.c12Done() {
+			f.census()
+			return true
+		}
+		if f.ClosedAt != 0 && (f.W.Steps-f.ClosedAt > 200000 || f.S.Now()-f.ClosedTime > f.L()) {
+			return true
+		}
+		if len(f.Closers) > 0 && f.ClosedAt == 0 && f.W.Steps-f.Closers[0].Invoke > 200000 && f.Closers[0].Invoke != 0 {
+			return true
+		}
+		if f.QStartStep == 0 || len(f.Closers) > 0 {
+			return false
+		}
 	}
 	if f.QStartStep == 0 {
 		return false
